@@ -159,9 +159,26 @@ def d1_progress(ctx, idx):
         for s in ast.walk(w):
             if isinstance(s, ast.If) and s is not w:
                 flag, edge = _flag_test(s.test)
-                if flag is not None and any((_const_assign(x, True) or _const_assign(x, False)) and x.targets[0].id == flag
-                                            for x in walk_own(fi.node)):
-                    tests.append((s, flag, edge))
+                if flag is None:
+                    continue
+                has_const = lambda n_: any((_const_assign(x, True) or _const_assign(x, False)) and x.targets[0].id == n_
+                                           for x in walk_own(fi.node))
+                if not has_const(flag):
+                    # the tested name may be a snapshot `t = flag` taken after the pass (e.g. a helper's returned value)
+                    snaps = [x for x in walk_own(fi.node) if isinstance(x, ast.Assign) and len(x.targets) == 1
+                             and X.is_name(x.targets[0], flag) and isinstance(x.value, ast.Name) and has_const(x.value.id)]
+                    if len(snaps) != 1 or not _in_subtree(snaps[0], w):
+                        continue
+                    real = snaps[0].value.id
+                    tn_ = [n for n in cfg.nodes_of(s) if n.kind == 'test']
+                    sn_ = cfg.nodes_of(snaps[0])
+                    wr_ = [n for n in cfg.nodes if n.kind == 'stmt' and isinstance(n.ast, (ast.Assign, ast.AugAssign))
+                           and real in X.assigned_names(n.ast)]
+                    between = cfg.reach(sn_, blocked=tn_, include_starts=False)
+                    if not tn_ or not sn_ or any(n in between for n in wr_) or not cfg.dominates(sn_, tn_):
+                        continue
+                    flag = real
+                tests.append((s, flag, edge))
         # the end-of-round test is the one that is not inside a loop nested in the while
         round_tests = [t for t in tests if X.enclosing_loop(t[0]) is w]
         if not round_tests:
@@ -757,10 +774,97 @@ def _ancestors_in(node, root):
 
 
 # ----------------------------------------------------------------------------- D4
+def _translation_by_manager(idx, fi, call):
+    """Exception translation done by the context manager of an enclosing `with`: a class whose __exit__ tests the exception
+    type and raises, or a generator-based manager whose `yield` sits in a try with the handler.  Returns
+    ('ok'|'violation'|'undecided', text, loc) or None if the call is not inside such a `with`."""
+    withs = [a for a in X._ancestors(call) if isinstance(a, ast.With)] if hasattr(X, '_ancestors') else []
+    if not withs:
+        p_ = parent(call)
+        while p_ is not None and not isinstance(p_, (ast.FunctionDef, ast.Lambda)):
+            if isinstance(p_, ast.With):
+                withs.append(p_)
+            p_ = parent(p_)
+    orig = getattr(fi, 'original', fi)
+    for wnode in withs:
+        for item in wnode.items:
+            ce = item.context_expr
+            if not isinstance(ce, ast.Call):
+                continue
+            targets, how = idx.resolve_call(orig, ce)
+            classes = [t[1] for t in targets if isinstance(t, tuple) and t[0] == 'class']
+            funcs = [t for t in targets if hasattr(t, 'node')]
+            where = lib.loc(fi, wnode)
+            if classes:
+                ex = idx.lookup(classes[0], '__exit__')
+                if ex is None or len(ex.params) < 4:
+                    continue
+                et, ev = ex.params[1], ex.params[2]
+
+                def atom(e, et=et, ev=ev, module=ex.module):
+                    if X.m("%s is None" % et, e) is not None or X.m("%s is None" % ev, e) is not None:
+                        return lambda w: False
+                    if X.m("%s is not None" % et, e) is not None or X.m("%s is not None" % ev, e) is not None or X.is_name(e, et) or X.is_name(e, ev):
+                        return lambda w: True
+                    b = X.m("issubclass(%s, _C)" % et, e) or X.m("isinstance(%s, _C)" % ev, e)
+                    if b is not None:
+                        names = [unparse(x).split('.')[-1] for x in (b['_C'].elts if isinstance(b['_C'], ast.Tuple) else [b['_C']])]
+                        return lambda w, names=names: any(n in CALC_COVER for n in names)
+                    return None
+                guards = X.Guards(atom)
+                try:
+                    sel = X.select_paths(nf.decision_paths(ex.node.body), guards, {})
+                except X.Unrecognised as e_:
+                    return ('undecided', '__exit__ of %s not understood: %s' % (classes[0].name, e_), where)
+                if len(sel) != 1:
+                    return ('undecided', '__exit__ of %s: paths not exclusive' % classes[0].name, where)
+                leaf = sel[0].leaf
+                if leaf.kind == 'raise':
+                    cls = nf.exc_class_name(leaf.expr) if leaf.expr is not None else 're-raise'
+                    if cls == 'ConfigError':
+                        return ('ok', '%s.__exit__ turns CalcError into ConfigError' % classes[0].name, where)
+                    return ('violation', '%s.__exit__ turns a CalcError into %s instead of ConfigError' % (classes[0].name, cls), lib.loc(ex, leaf.stmt))
+                val = leaf.expr
+                if leaf.kind == 'fall' or (isinstance(val, ast.Constant) and not val.value):
+                    return ('violation', '%s.__exit__ lets a CalcError pass untranslated: the formula error reaches the student as a '
+                            'student-facing CalcError instead of a ConfigError' % classes[0].name, lib.loc(ex, ex.node))
+                if isinstance(val, ast.Constant) and val.value:
+                    return ('violation', '%s.__exit__ swallows the CalcError' % classes[0].name, lib.loc(ex, ex.node))
+                return ('undecided', '__exit__ returns %s' % short(val), where)
+            if funcs and any('contextmanager' in d for d in funcs[0].decorators):
+                g = funcs[0]
+                ys = [n for n in walk_own(g.node) if isinstance(n, (ast.Yield, ast.YieldFrom))]
+                if len(ys) != 1:
+                    continue
+                tr = lib.enclosing_try(ys[0])
+                if tr is None:
+                    continue
+                cover = [h for h in tr.handlers if X.handler_covers(h, CALC_COVER)]
+                if not cover:
+                    continue
+                ok, classes_ = X.body_raises(cover[0].body)
+                if ok and classes_ == {'ConfigError'}:
+                    return ('ok', 'context manager %s turns CalcError into ConfigError' % g.name, where)
+                if ok or classes_:
+                    return ('violation', 'context manager %s turns a CalcError into %s' % (g.name, sorted(classes_)), lib.loc(g, cover[0]))
+                return ('undecided', 'handler of %s not understood' % g.name, where)
+    return None
+
+
 def _translation(r, idx, fi, call, construct):
     """The call sits in a try whose handler covers CalcError and raises ConfigError on every path."""
     tr = lib.enclosing_try(call)
     if tr is None:
+        verdict_ = _translation_by_manager(idx, fi, call)
+        if verdict_ is not None:
+            kind, text, where = verdict_
+            if kind == 'ok':
+                r.ok(construct, text, where)
+            elif kind == 'violation':
+                r.violation(construct, text, where, expected='CalcError -> ConfigError')
+            else:
+                r.undecided(construct, text, where)
+            return
         X.absent(r, construct, 'the call `%s` is not inside a try: a formula error reaches the student as a student-facing CalcError '
                  'instead of a ConfigError' % short(call, 50), lib.loc(fi, call), expected='except CalcError: raise ConfigError')
         return
@@ -828,6 +932,8 @@ def d4_dependent(ctx, idx):
         probs = []
         for role, src in want.items():
             got = bound.get(role)
+            if got is not None:
+                got = lib.inline_locals(got, fn)
             if got is None:
                 probs.append('%s is not passed (the library default is used)' % role)
             elif X.m(src, got) is None:
@@ -1610,6 +1716,9 @@ MUTANTS = [
 ]
 
 BENIGN = [
+    Benign('progress-flag-snapshot', SAMPLING, "            if not progress_made:\n", "            made_progress = progress_made\n            if not made_progress:\n"),
+    Benign('evaluator-called-positionally', SAMPLING, "            result, _ = evaluator(formula=self.config['formula'],\n                                  variables=sample_dict,\n                                  functions=functions,\n                                  suffixes=suffixes)",
+           "            formula = self.config['formula']\n            result, _ = evaluator(formula, sample_dict, functions, suffixes)"),
     Benign('samplers-enumerated-by-values', FG, "        samplers = [self.config['sample_from'][x]\n                    for x in self.config['sample_from']\n                    if isinstance(self.config['sample_from'][x], DependentSampler)]",
            "        samplers = [s for s in self.config['sample_from'].values() if isinstance(s, DependentSampler)]"),
     Benign('constants-pruned-with-redundant-test', SAMPLING, "for sym in constants if sym not in symbols}", "for sym in constants if not (sym in symbols and sym in sample_from)}"),
